@@ -75,6 +75,9 @@ def configs(tier):
                 out.append(c)
                 if entry in CONT_SIR and g in ('K2', 'P3') and not R0 and len(I0) == 1:
                     out.append(dict(c, tmax='sym', tags=c['tags'] + ['tmax:sym']))
+                if entry == 'discrete_SIR' and g == 'P3' and not R0 and len(I0) == 1:
+                    # a user recovery test (nodes may stay infectious for several steps; answers chosen by the engine)
+                    out.append(dict(c, test_recovery=True, max_keep=2, tags=c['tags'] + ['test_recovery']))
     return out
 
 
@@ -139,6 +142,11 @@ def run_path(h, cfg):
     same = [EQ(a, b) for a, b in zip(acc['t'], st_)] + [int(a) == int(b) for k in names[1:] for a, b in zip(acc[k], D[k])]
     h.require('accessors=summary', AND(okacc, *same), None)
     # summary == arrays as step functions
+    if cfg.get('test_recovery'):
+        # discrete time with nodes that stay infectious: the arrays have a row per step, also when nothing changed; the summary (built
+        # from status changes) cannot -- compare the step functions, i.e. drop the array rows that repeat the previous counts
+        keep = [0] + [i_ for i_ in range(1, len(arrays['t'])) if any(int(arrays[k][i_]) != int(arrays[k][i_ - 1]) for k in names[1:])]
+        arrays = {k: [arrays[k][i_] for i_ in keep] for k in arrays}
     ta = arrays['t']
     i = 0
     ok = True
@@ -247,6 +255,14 @@ def _second(h, r2, r, cfg):
         import EoN
         kw = dict(tmin=r2.tmin, tmax=r2.tmax, return_full_data=True)
         kw.update(simruns.ic_kwargs(r2, True))
+        if cfg.get('test_recovery'):
+            answers = list(getattr(r, 'recov_calls', []))      # the same answers, in the same order, as in the plain run
+
+            def test_recovery(u):
+                if not answers or answers[0][0] != u:
+                    raise simruns.WrongUserArgs('full-data run asks test_recovery(%s) where the plain run asked %s' % (u, answers[:1]))
+                return answers.pop(0)[1]
+            kw['test_recovery'] = test_recovery
         ret = EoN.discrete_SIR(r2.G, (lambda u, v: r2_contacts.get((u, v), False)), (), **kw)
         return simruns.check_shape(h, r2, ret)
     return simruns.call_entry(h, r2, 'no-exception')
